@@ -14,7 +14,7 @@ def run(args):
                        "depth <= %d around each of {break, continue, return, throw, fatal, none} (legal combinations), "
                        "with marker prints before/after and a second use of locals, try and a loop afterwards; "
                        "expected output/outcome from HmsSem; non-trivial = distinct program texts" % (3 if thorough else 2))
-    progs = Fam.nestings(3 if thorough else 2, rnd, sample=None if thorough else 700)
+    progs = Fam.nestings(3 if thorough else 2, rnd, sample=None)
     backends = ("vm", "tree")
     results, cases, rendered = sem.run_programs(progs, rep, backends=backends)
     for p in rnd.sample([q for q in progs if q["id"] in rendered], 3):
